@@ -540,6 +540,16 @@ func expectRA(in modelIn) *modelOut {
 				return m
 			}
 			best, ok := bestRDNSS(l)
+			for !ok && spareAddr > 0 {
+				// no address was eligible and the build listed the addresses
+				// again (it made more listings than its stanzas need): what the
+				// later listing says is what is "currently on the interface"
+				spareAddr--
+				if l, ok = nextAddr(); !ok {
+					return m
+				}
+				best, ok = bestRDNSS(l)
+			}
 			if !ok {
 				m.fail = "no eligible address for the RDNSS wildcard"
 				return m
